@@ -155,8 +155,8 @@ pub fn gen_sess_run(check: &str, seed: u64, tier: Tier, with_probes: bool) -> Ru
 /// Naming kind 10 spells every new slot as the name of the very next fresh slot. Whether that matters
 /// depends on what draws the next fresh slot: it has to be a binder of a node whose children exist
 /// already, with the new name free below it. Half of the kind-10 runs start with exactly that:
-/// `(lam [b] (p2 b $0))`, then `(lam [b] (p2 b $1))` - the class of p2 exists, `$1` is spelled last,
-/// the second lam node renames its binder next. (own stream; wide runs excepted: their leaves differ)
+/// `(p2 $0 b)`, then `(lam [b] (p2 b $1))` - the class of p2 exists, `$1` is spelled last, the new
+/// lam node renames its binder next. (own stream; wide runs excepted: their leaves differ)
 pub fn boundary_prelude(run: &mut Run, seed: u64) {
     let mut br = Rng::stream(seed, "boundary-prelude");
     if run.get("naming") != 10 || run.get("wide") != 0 || !br.chance(1, 2) {
@@ -172,9 +172,9 @@ pub fn boundary_prelude(run: &mut Run, seed: u64) {
     // b: a name used as a binder name by the generator (first name above the user alphabet), or 2
     let user_max = all_terms(&run.ops).iter().flat_map(|t| t.free_vec()).max().unwrap_or(1).max(1);
     let b = names.iter().copied().find(|x| *x > user_max).unwrap_or(user_max + 1);
-    let mk = |x: S| Tm::node("lam", vec![], vec![(vec![b], Tm::leaf("p2", vec![b, x]))]);
-    run.ops.insert(0, Op::new("add").t(mk(1)));
-    run.ops.insert(0, Op::new("add").t(mk(0)));
+    // (the lam node has to be new, so the first term is the bare leaf)
+    run.ops.insert(0, Op::new("add").t(Tm::node("lam", vec![], vec![(vec![b], Tm::leaf("p2", vec![b, 1]))])));
+    run.ops.insert(0, Op::new("add").t(Tm::leaf("p2", vec![0, b])));
     run.set("boundary_prelude", 1);
 }
 
